@@ -175,8 +175,171 @@ theorem cutLoop_stored_step (f : Nat) (c : Cutter) (prev : Option (Nat × Nat)) 
   simp only [Cutter.cutLoop, ht1, ht2, hbt]
   have n1 : ¬ (Int.ofNat (v.toNat % 2) < 0) := by simp; omega
   simp only [n1, if_false]
+  generalize hc2 : ({ c with bits := (⟨s, q + 1, v.toUInt64 >>> 3, 5⟩ : Bitstream) } : Cutter) = c2
+  have hb2 : c2.bits = ⟨s, q + 1, v.toUInt64 >>> 3, 5⟩ := by rw [← hc2]
+  have hm2 : c2.maxEncodedLen = c.maxEncodedLen := by rw [← hc2]
+  have hd2 : c2.decodedLen = c.decodedLen := by rw [← hc2]
+  have hD2 : 0 ≤ c2.decodedLen ∧ c2.decodedLen + d.size < 2147483648 := by rw [hd2]; exact hD
+  have hne3 : ¬ (Int.ofNat 0 = 3) := by decide
+  have hlt0 : ¬ (Int.ofNat 0 < 0) := by decide
+  simp only [hlt0, hne3, if_false, if_true]
+  by_cases hfit : q + 5 + d.size ≤ c.maxEncodedLen
+  · rw [doStored_fits c2 s q _ d fin hb2 hb (by omega) hD2]
+    simp only [hfit, if_true, Bitstream.unread, hm2, hd2]
+    cases fin
+    · have hz : ((v.toNat : Int) % 2 = 0) := by simp at hfb; omega
+      simp [hz]
+      rw [← hc2]
+    · have hz : ¬ ((v.toNat : Int) % 2 = 0) := by simp at hfb; omega
+      simp [hz]
+      rw [finish_aligned _ rfl]
+  · by_cases hsome : q + 5 < c.maxEncodedLen
+    · rw [doStored_someProgress c2 s q _ d fin hb2 hb (by omega) (by omega) hD2]
+      simp only [hfit, hsome, if_false, if_true, Bitstream.unread, hm2, hd2]
+      simp
+      generalize patchFinalBit (rewriteHdr s q (c.maxEncodedLen - (q + 5))) (q + 1) 7 = pr
+      cases pr with
+      | error e => rfl
+      | ok b => simp [finish_aligned]
+    · rw [doStored_noProgress c2 s q _ d fin hb2 hb (by omega) hD2]
+      simp only [hfit, hsome, if_false, Bitstream.unread, hm2, hb2]
+      simp
+      simp only [hb2, hm2, hd2]
+      cases prev with
+      | none => rfl
+      | some p =>
+        obtain ⟨pi, pn⟩ := p
+        simp
+        generalize patchFinalBit s pi pn = pr
+        cases pr with
+        | error e => rfl
+        | ok b => simp [finish_aligned, hd2]
+
+/-! ### the final surgery, byte level -/
+
+set_option maxRecDepth 100000 in
+theorem or1_mod8 : ∀ x : Fin 256, x.val % 8 ≤ 1 → ((x.val ||| 1) % 256) % 8 = 1 := by decide
+
+/-- Patching the final-block bit that sits in bit 0 of byte `q`. -/
+theorem patchFinalBit_bit0 (s : Bytes) (q : Nat) (hq : q < s.size) :
+    patchFinalBit s (q + 1) 7 = .ok (s.setIfInBounds q (UInt8.ofNat ((s.getD q 0).toNat ||| 1))) := by
+  simp only [patchFinalBit]
+  have e1 : ¬ (q + 1 = 0) := by omega
+  have e2 : q + 1 - 1 = q := by omega
+  have e3 : (1 <<< (7 - 7)) % 256 = 1 := by decide
+  simp only [e1, if_false, e2, getElem?_eq_getD s q hq, e3]
+
+theorem getD_setIfInBounds (s : Bytes) (i j : Nat) (v : UInt8) :
+    (s.setIfInBounds i v).getD j 0 = if j = i ∧ i < s.size then v else s.getD j 0 := by
+  simp only [Array.getD_eq_getD_getElem?, Array.getElem?_setIfInBounds]
+  by_cases h : i = j
+  · subst h
+    by_cases h2 : i < s.size
+    · simp [h2]
+    · simp [h2]
+  · have : ¬ (j = i ∧ i < s.size) := by omega
+    simp [h, this]
+
+theorem agree_set (s : Bytes) (i : Nat) (v : UInt8) (lo hi : Nat) (h : i < lo ∨ hi ≤ i) :
+    AgreeOn s (s.setIfInBounds i v) lo hi := by
+  intro j h1 h2
+  rw [getD_setIfInBounds]
+  have : ¬ (j = i ∧ i < s.size) := by omega
+  simp [this]
+
+theorem agree_extract (s : Bytes) (e lo hi : Nat) (h : hi ≤ e) : AgreeOn s (s.extract 0 e) lo hi := by
+  intro j h1 h2
+  simp only [Array.getD_eq_getD_getElem?, Array.getElem?_extract]
+  have : j < min e s.size ∨ ¬ (j < min e s.size) := by omega
+  rcases this with h3 | h3
+  · simp [h3]
+  · have : s.size ≤ j := by omega
+    simp [h3, Array.getElem?_eq_none this]
+
+theorem AgreeOn.trans {s s' s'' : Bytes} {lo hi : Nat} (h1 : AgreeOn s s' lo hi) (h2 : AgreeOn s' s'' lo hi) :
+    AgreeOn s s'' lo hi := fun i a b => (h2 i a b).trans (h1 i a b)
+
+/-! ### the terminal cases of the walk -/
+
+/-- What THE property asks of one successful result: the first `e` bytes of the modified buffer
+are a complete DEFLATE stream that decodes to the first `dLen` bytes of `T`, using all `e` bytes. -/
+def Good (T enc : Bytes) (e dLen : Nat) : Prop :=
+  Spec.inflate (enc.extract 0 e) = some (T.extract 0 dLen, e) ∧ dLen ≤ T.size
+
+theorem BlkAt.retag {s s' : Bytes} {q : Nat} {d : Bytes} {fin fin' : Bool} (hb : BlkAt s q d fin)
+    (ha : AgreeOn s s' (q + 1) (q + 5 + d.size)) (hs' : q + 5 + d.size ≤ s'.size)
+    (hh : (s'.getD q 0).toNat % 8 = if fin' then 1 else 0) : BlkAt s' q d fin' := by
+  have hf := hb.fits
+  refine ⟨hh, ?_, ?_, hb.le, hs', ?_⟩
+  · rw [ha (q + 1) (by omega) (by omega), ha (q + 2) (by omega) (by omega)]; exact hb.len
+  · rw [ha (q + 3) (by omega) (by omega), ha (q + 4) (by omega) (by omega)]; exact hb.nlen
+  · rw [extract_eq_of_agree s s' (q + 5) (q + 5 + d.size) (ha.mono (by omega) (by omega)) hf hs']
+    exact hb.data
+
+theorem extract_prefix_append (a b : Bytes) : (a ++ b).extract 0 a.size = a := by
+  rw [Array.extract_append]
   simp
-  trace_state
-  sorry
+
+/-- Nothing was cut: the whole stream. -/
+theorem good_whole (s : Bytes) (ds : List Bytes) (dl : Bytes)
+    (hr : Run s 0 ds) (hl : BlkAt s (endOf 0 ds) dl true) :
+    Good (flat ds ++ dl) s (endOf 0 ds + 5 + dl.size) (flat ds ++ dl).size := by
+  have hf := hl.fits
+  have hm := endOf_mono 0 ds
+  have hsz : (s.extract 0 (endOf 0 ds + 5 + dl.size)).size = endOf 0 ds + 5 + dl.size := by
+    simp [Array.size_extract]; omega
+  have hag : AgreeOn s (s.extract 0 (endOf 0 ds + 5 + dl.size)) 0 (endOf 0 ds + 5 + dl.size) :=
+    agree_extract s _ _ _ (Nat.le_refl _)
+  have h1 : Run (s.extract 0 (endOf 0 ds + 5 + dl.size)) 0 ds :=
+    hr.transport (hag.mono (Nat.le_refl _) (by omega)) (by omega)
+  have h2 : BlkAt (s.extract 0 (endOf 0 ds + 5 + dl.size)) (endOf 0 ds) dl true :=
+    hl.transport (hag.mono (by omega) (Nat.le_refl _)) (by omega)
+  refine ⟨?_, Nat.le_refl _⟩
+  rw [inflate_stored _ ds dl h1 h2, Array.extract_eq_self_of_le (Nat.le_refl _)]
+
+theorem toNat_ofNat_or1 (x : UInt8) (h : x.toNat % 8 ≤ 1) : (UInt8.ofNat (x.toNat ||| 1)).toNat % 8 = 1 := by
+  have := or1_mod8 ⟨x.toNat, x.toNat_lt⟩ h
+  simpa using this
+
+/-- `errInternalNoProgress` with a previous block: the stream is cut just before the current block
+and the previous block is marked final. -/
+theorem good_patch_prev (s : Bytes) (pre0 : List Bytes) (dlast tail b : Bytes)
+    (hr : Run s 0 pre0) (hb : BlkAt s (endOf 0 pre0) dlast false)
+    (hp : patchFinalBit s (endOf 0 pre0 + 1) 7 = .ok b) :
+    Good (flat pre0 ++ dlast ++ tail) b (endOf 0 pre0 + 5 + dlast.size) (flat pre0 ++ dlast).size := by
+  have hf := hb.fits
+  have hm := endOf_mono 0 pre0
+  generalize hq0 : endOf 0 pre0 = q0 at *
+  rw [patchFinalBit_bit0 s q0 (by omega)] at hp
+  have hp' := Except.ok.inj hp
+  subst hp'
+  generalize hx : UInt8.ofNat ((s.getD q0 0).toNat ||| 1) = x
+  generalize he : q0 + 5 + dlast.size = e at *
+  have hsz1 : (s.setIfInBounds q0 x).size = s.size := by simp
+  have hsz : ((s.setIfInBounds q0 x).extract 0 e).size = e := by
+    simp [Array.size_extract]; omega
+  have hag1 : AgreeOn (s.setIfInBounds q0 x) ((s.setIfInBounds q0 x).extract 0 e) 0 e :=
+    agree_extract _ _ _ _ (Nat.le_refl _)
+  have h1 : Run ((s.setIfInBounds q0 x).extract 0 e) 0 pre0 := by
+    apply hr.transport
+    · rw [hq0]
+      exact AgreeOn.trans (agree_set s q0 x 0 q0 (Or.inr (Nat.le_refl _))) (hag1.mono (Nat.le_refl _) (by omega))
+    · rw [hq0]; omega
+  have h2 : BlkAt ((s.setIfInBounds q0 x).extract 0 e) q0 dlast true := by
+    apply BlkAt.retag hb
+    · rw [he]
+      exact AgreeOn.trans (agree_set s q0 x (q0 + 1) e (Or.inl (by omega))) (hag1.mono (by omega) (Nat.le_refl _))
+    · omega
+    · rw [hag1 q0 (by omega) (by omega), getD_setIfInBounds]
+      have : q0 = q0 ∧ q0 < s.size := ⟨rfl, by omega⟩
+      simp only [this, and_self, if_true, ← hx]
+      apply toNat_ofNat_or1
+      have := hb.hdr
+      simp only [Bool.false_eq_true, if_false] at this
+      omega
+  refine ⟨?_, by simp [Array.size_append]⟩
+  have := inflate_stored _ pre0 dlast h1 (by rw [hq0]; exact h2)
+  rw [hq0, he] at this
+  rw [this, extract_prefix_append]
 
 end WuffsVerif.Flate.Cut
